@@ -284,11 +284,12 @@ where
     }
 
     /// Size (in bytes) of this header in on-disk representation, not including padding
-    pub(crate) fn size(&self) -> u32 {
-        let index_size = self.index_header.num_entries * INDEX_ENTRY_SIZE;
-        let data_size = self.index_header.data_section_size;
+    pub(crate) fn size(&self) -> u64 {
+        // computed in u64: num_entries and data_section_size are untrusted 32-bit values
+        let index_size = self.index_header.num_entries as u64 * INDEX_ENTRY_SIZE as u64;
+        let data_size = self.index_header.data_section_size as u64;
 
-        INDEX_HEADER_SIZE + index_size + data_size
+        INDEX_HEADER_SIZE as u64 + index_size + data_size
     }
 }
 
